@@ -82,21 +82,51 @@ func Verify(stump Stump, delHashes []Hash, proof Proof) ([]int, error) {
 	if err != nil {
 		return nil, err
 	}
-	rootIndexes := make([]int, 0, len(rootCandidates))
-	for i := range stump.Roots {
-		if len(rootCandidates) > len(rootIndexes) &&
-			stump.Roots[len(stump.Roots)-(i+1)] == rootCandidates[len(rootIndexes)] {
-
-			rootIndexes = append(rootIndexes, len(stump.Roots)-(i+1))
+	// Each calculated root must match the root of the tree that the targets
+	// are in. Matching against any root would accept a hash that is placed in
+	// a different tree.
+	rootIndexes, err := rootIndexesOfTargets(stump.NumLeaves, len(stump.Roots), proof.Targets)
+	if err != nil {
+		return nil, err
+	}
+	if len(rootCandidates) != len(rootIndexes) {
+		err := fmt.Errorf("StumpVerify fail. Invalid proof. Have %d calculated roots but "+
+			"the targets are in %d trees", len(rootCandidates), len(rootIndexes))
+		return nil, err
+	}
+	for i, rootIndex := range rootIndexes {
+		if stump.Roots[rootIndex] != rootCandidates[i] {
+			err := fmt.Errorf("StumpVerify fail. Invalid proof. Calculated root %d does not "+
+				"match the root at index %d", i, rootIndex)
+			return nil, err
 		}
 	}
 
-	if len(rootCandidates) != len(rootIndexes) {
-		// The proof is invalid because some root candidates were not
-		// included in `roots`.
-		err := fmt.Errorf("StumpVerify fail. Invalid proof. Have %d roots but only "+
-			"matched %d roots", len(rootCandidates), len(rootIndexes))
-		return nil, err
+	return rootIndexes, nil
+}
+
+// rootIndexesOfTargets returns the indexes of the roots of the trees that the targets are in.
+// The indexes are ordered from the smallest tree to the biggest tree, which is the order the
+// roots are calculated in, and each index is only included once.
+func rootIndexesOfTargets(numLeaves uint64, rootCount int, targets []uint64) ([]int, error) {
+	inTree := make([]bool, rootCount)
+	for _, target := range targets {
+		tree, _, _, err := DetectOffset(target, numLeaves)
+		if err != nil {
+			return nil, err
+		}
+		if int(tree) >= rootCount {
+			return nil, fmt.Errorf("position %d is in tree %d but only have %d roots",
+				target, tree, rootCount)
+		}
+		inTree[tree] = true
+	}
+
+	rootIndexes := make([]int, 0, rootCount)
+	for i := rootCount - 1; i >= 0; i-- {
+		if inTree[i] {
+			rootIndexes = append(rootIndexes, i)
+		}
 	}
 
 	return rootIndexes, nil
